@@ -174,8 +174,11 @@ theorem run_rsub (a : Term) (left : Arg) :
         | ok w =>
           have c1 : call "BV" [Arg.i n, Arg.i (w : Int)] = Mk.BV n w := by
             have h : call "BV" [Arg.i n, Arg.i (w : Int)] =
-                (if (w : Int) < 0 then .error .unmodelled else Mk.BV n (w : Int).toNat) := rfl
-            rw [h, if_neg (by omega)]; simp
+                (if (w : Int) ≤ 0 then .error .value else Mk.BV n (w : Int).toNat) := rfl
+            rw [h]
+            by_cases hw0 : w = 0
+            · subst hw0; simp [Mk.BV]
+            · rw [if_neg (by omega)]; simp
           simp only [c1]
           cases Mk.BV n w with
           | error e => rfl
@@ -261,11 +264,11 @@ theorem rsub_denotes_bv_int (I : Interp) {a t : Term} {w : Nat} {n : Int}
   unfold rsubModel at h
   rw [hty] at h
   simp only [Ty.isBv, if_true, hw, bind, Except.bind] at h
-  have h0 : ¬ n < 0 := by
-    intro hk; rw [(bv_error_iff n w).mpr (Or.inl hk)] at h; cases h
-  have h1 : ¬ n ≥ 2 ^ w := by
-    intro hk; rw [(bv_error_iff n w).mpr (Or.inr hk)] at h; cases h
-  rw [bv_ok (by omega) (by omega)] at h
+  cases hbv : Mk.BV n w with
+  | error e => rw [hbv] at h; cases h
+  | ok c =>
+  rw [hbv] at h
+  obtain ⟨_, h0, h1, rfl⟩ := bv_ok_inv hbv
   simp only at h
   refine ⟨by omega, by omega, ?_⟩
   have hlt : n.toNat < 2 ^ w := by
